@@ -28,22 +28,11 @@ const (
 
 type validator interface{ ValidateBasic() error }
 
-// deliver runs what the chain runs for one message: ValidateBasic (ante), then the handler.
-// A panic is a failed transaction.
-func deliver(e *env, h int) (signer string, target uint64, err error) {
-	defer func() {
-		if r := recover(); r != nil {
-			err = etypes.ErrInvalidPayment
-			verif_Reach("panicked")
-		}
-	}()
-	goctx := sdk.WrapSDKContext(e.ctx)
-	run := func(m validator, f func(context.Context) error) error {
-		if err := m.ValidateBasic(); err != nil {
-			return err
-		}
-		return f(goctx)
-	}
+// mkMsg builds one arbitrary message for handler h; the returned function runs what the chain
+// runs for it on the given context: ValidateBasic (ante), then the handler.  A panic is a failed transaction.
+func mkMsg(e *env, h int) (signer string, target uint64, exec func(ctx sdk.Context) error) {
+	var m validator
+	var call func(c context.Context) error
 	o := func() int { return 1 + verif_Choice("msg-order", e.NO+1) }
 	p := func() int { return 1 + verif_Choice("msg-provider", e.NP) }
 	signer = addr(0)
@@ -54,52 +43,69 @@ func deliver(e *env, h int) (signer string, target uint64, err error) {
 			target = 3
 		}
 		price := amount("msg-price")
-		m := &dtypes.MsgCreateDeployment{ID: did(target), Groups: []dtypes.GroupSpec{spec(price)}, Version: make([]byte, 32), Deposit: coin(amount("msg-deposit"))}
-		err = run(m, func(c context.Context) error { _, err := e.ds.CreateDeployment(c, m); return err })
+		x := &dtypes.MsgCreateDeployment{ID: did(target), Groups: []dtypes.GroupSpec{spec(price)}, Version: make([]byte, 32), Deposit: coin(amount("msg-deposit"))}
+		m, call = x, func(c context.Context) error { _, err := e.ds.CreateDeployment(c, x); return err }
 	case hDepositDeployment:
-		m := &dtypes.MsgDepositDeployment{ID: did(1), Amount: coin(amount("msg-amount"))}
-		err = run(m, func(c context.Context) error { _, err := e.ds.DepositDeployment(c, m); return err })
+		x := &dtypes.MsgDepositDeployment{ID: did(1), Amount: coin(amount("msg-amount"))}
+		m, call = x, func(c context.Context) error { _, err := e.ds.DepositDeployment(c, x); return err }
 	case hUpdateDeployment:
 		v := make([]byte, 32)
 		v[0] = byte(verif_Choice("msg-version", 2))
 		pre := e.snapshot()
-		m := &dtypes.MsgUpdateDeployment{ID: did(1), Groups: []dtypes.GroupSpec{pre.grp[1].GroupSpec}, Version: v}
-		err = run(m, func(c context.Context) error { _, err := e.ds.UpdateDeployment(c, m); return err })
+		x := &dtypes.MsgUpdateDeployment{ID: did(1), Groups: []dtypes.GroupSpec{pre.grp[1].GroupSpec}, Version: v}
+		m, call = x, func(c context.Context) error { _, err := e.ds.UpdateDeployment(c, x); return err }
 	case hCloseDeployment:
-		m := &dtypes.MsgCloseDeployment{ID: did(1)}
-		err = run(m, func(c context.Context) error { _, err := e.ds.CloseDeployment(c, m); return err })
+		x := &dtypes.MsgCloseDeployment{ID: did(1)}
+		m, call = x, func(c context.Context) error { _, err := e.ds.CloseDeployment(c, x); return err }
 	case hCloseGroup:
-		m := &dtypes.MsgCloseGroup{ID: gid(1)}
-		err = run(m, func(c context.Context) error { _, err := e.ds.CloseGroup(c, m); return err })
+		x := &dtypes.MsgCloseGroup{ID: gid(1)}
+		m, call = x, func(c context.Context) error { _, err := e.ds.CloseGroup(c, x); return err }
 	case hPauseGroup:
-		m := &dtypes.MsgPauseGroup{ID: gid(1)}
-		err = run(m, func(c context.Context) error { _, err := e.ds.PauseGroup(c, m); return err })
+		x := &dtypes.MsgPauseGroup{ID: gid(1)}
+		m, call = x, func(c context.Context) error { _, err := e.ds.PauseGroup(c, x); return err }
 	case hStartGroup:
-		m := &dtypes.MsgStartGroup{ID: gid(1)}
-		err = run(m, func(c context.Context) error { _, err := e.ds.StartGroup(c, m); return err })
+		x := &dtypes.MsgStartGroup{ID: gid(1)}
+		m, call = x, func(c context.Context) error { _, err := e.ds.StartGroup(c, x); return err }
 	case hCreateBid:
 		pi := p()
 		signer = addr(pi)
-		m := &mtypes.MsgCreateBid{Order: oid(1, o()), Provider: addr(pi), Price: coin(amount("msg-price")), Deposit: coin(amount("msg-deposit"))}
-		err = run(m, func(c context.Context) error { _, err := e.ms.CreateBid(c, m); return err })
+		x := &mtypes.MsgCreateBid{Order: oid(1, o()), Provider: addr(pi), Price: coin(amount("msg-price")), Deposit: coin(amount("msg-deposit"))}
+		m, call = x, func(c context.Context) error { _, err := e.ms.CreateBid(c, x); return err }
 	case hCloseBid:
 		pi := p()
 		signer = addr(pi)
-		m := &mtypes.MsgCloseBid{BidID: bidid(1, o(), pi)}
-		err = run(m, func(c context.Context) error { _, err := e.ms.CloseBid(c, m); return err })
+		x := &mtypes.MsgCloseBid{BidID: bidid(1, o(), pi)}
+		m, call = x, func(c context.Context) error { _, err := e.ms.CloseBid(c, x); return err }
 	case hCreateLease:
-		m := &mtypes.MsgCreateLease{BidID: bidid(1, o(), p())}
-		err = run(m, func(c context.Context) error { _, err := e.ms.CreateLease(c, m); return err })
+		x := &mtypes.MsgCreateLease{BidID: bidid(1, o(), p())}
+		m, call = x, func(c context.Context) error { _, err := e.ms.CreateLease(c, x); return err }
 	case hWithdrawLease:
 		pi := p()
 		signer = addr(pi)
-		m := &mtypes.MsgWithdrawLease{LeaseID: lid(1, o(), pi)}
-		err = run(m, func(c context.Context) error { _, err := e.ms.WithdrawLease(c, m); return err })
+		x := &mtypes.MsgWithdrawLease{LeaseID: lid(1, o(), pi)}
+		m, call = x, func(c context.Context) error { _, err := e.ms.WithdrawLease(c, x); return err }
 	case hCloseLease:
-		m := &mtypes.MsgCloseLease{LeaseID: lid(1, o(), p())}
-		err = run(m, func(c context.Context) error { _, err := e.ms.CloseLease(c, m); return err })
+		x := &mtypes.MsgCloseLease{LeaseID: lid(1, o(), p())}
+		m, call = x, func(c context.Context) error { _, err := e.ms.CloseLease(c, x); return err }
 	}
-	return signer, target, err
+	exec = func(ctx sdk.Context) (err error) {
+		defer func() {
+			if r := recover(); r != nil {
+				err = etypes.ErrInvalidPayment
+				verif_Reach("panicked")
+			}
+		}()
+		if err := m.ValidateBasic(); err != nil {
+			return err
+		}
+		return call(sdk.WrapSDKContext(ctx))
+	}
+	return signer, target, exec
+}
+
+func deliver(e *env, h int) (string, uint64, error) {
+	signer, target, exec := mkMsg(e, h)
+	return signer, target, exec(e.ctx)
 }
 
 func step(h, no, np int) {
@@ -259,3 +265,113 @@ func Harness_CHAIN_CloseBid_21()          { step(hCloseBid, 2, 1) }
 func Harness_CHAIN_CreateLease_21()       { step(hCreateLease, 2, 1) }
 func Harness_CHAIN_WithdrawLease_21()     { step(hWithdrawLease, 2, 1) }
 func Harness_CHAIN_CloseLease_21()        { step(hCloseLease, 2, 1) }
+
+
+// ---------- C07: determinism by 2-run self-composition ----------
+// The same message is executed twice from the same state on two forks of the context, with
+// independent iteration orders for every map range inside the code under test (the engine turns
+// each such range into a choice point; harness code is excluded).  State, result and events
+// must be identical.
+func stepDet(h, no, np int) {
+	e := newEnv(no, np)
+	e.seedDeployment(1, no, np, true)
+	e.seedDeployment(12, 1, 1, false)
+	for p := 1; p <= np; p++ {
+		if err := e.pk.Create(e.ctx, ptypes.Provider{Owner: addr(p), HostURI: "h"}); err != nil {
+			panic(err)
+		}
+	}
+	pre := e.snapshot()
+	for _, c := range e.invariant(pre, 1, no, np) {
+		verif_Assume(c.ok)
+	}
+	_, _, exec := mkMsg(e, h)
+	verif_MapOrderChoice(true)
+	base := e.ctx
+	bank0 := e.bank.clone()
+	e.ctx = verif_ForkContext(base).WithEventManager(sdk.NewEventManager())
+	err1 := exec(e.ctx)
+	post1, ev1, log1 := e.snapshot(), e.ctx.EventManager().Events(), e.bank.log
+	e.bank.restore(bank0)
+	e.ctx = verif_ForkContext(base).WithEventManager(sdk.NewEventManager())
+	err2 := exec(e.ctx)
+	post2, ev2, log2 := e.snapshot(), e.ctx.EventManager().Events(), e.bank.log
+	verif_MapOrderChoice(false)
+	verif_Assert((err1 == nil) == (err2 == nil), "C07 repeated execution gives the same result")
+	verif_Reach("executed-twice")
+	verif_Assert(sameState(post1, post2), "C07 repeated execution gives the same state")
+	verif_Assert(len(ev1) == len(ev2), "C07 repeated execution emits the same events")
+	if len(ev1) == len(ev2) {
+		for i := range ev1 {
+			verif_Assert(sameEvent(ev1[i], ev2[i]), "C07 repeated execution emits the same events")
+		}
+	}
+	verif_Assert(len(log1) == len(log2), "C07 repeated execution makes the same transfers")
+	if len(log1) == len(log2) {
+		for i := range log1 {
+			verif_Assert(verif_And(log1[i].toModule == log2[i].toModule, log1[i].addr == log2[i].addr, log1[i].amt.Equal(log2[i].amt)), "C07 repeated execution makes the same transfers")
+		}
+	}
+}
+
+func sameEvent(a, b sdk.Event) bool {
+	if a.Type != b.Type || len(a.Attributes) != len(b.Attributes) {
+		return false
+	}
+	ok := true
+	for i := range a.Attributes {
+		ok = verif_And(ok, string(a.Attributes[i].Key) == string(b.Attributes[i].Key), string(a.Attributes[i].Value) == string(b.Attributes[i].Value))
+	}
+	return ok
+}
+
+func sameState(a, b state) bool {
+	if len(a.dep) != len(b.dep) || len(a.grp) != len(b.grp) || len(a.ord) != len(b.ord) || len(a.bid) != len(b.bid) || len(a.lease) != len(b.lease) || len(a.acct) != len(b.acct) || len(a.pay) != len(b.pay) {
+		return false
+	}
+	ok := a.module.Equal(b.module)
+	for k, x := range a.dep {
+		y := b.dep[k]
+		ok = verif_And(ok, x.State == y.State, string(x.Version) == string(y.Version), x.CreatedAt == y.CreatedAt)
+	}
+	for k, x := range a.grp {
+		ok = verif_And(ok, x.State == b.grp[k].State)
+	}
+	for k, x := range a.ord {
+		y := b.ord[k]
+		ok = verif_And(ok, x.State == y.State, x.CreatedAt == y.CreatedAt)
+	}
+	for k, x := range a.bid {
+		y := b.bid[k]
+		ok = verif_And(ok, x.State == y.State, x.Price.Amount.Equal(y.Price.Amount), x.CreatedAt == y.CreatedAt)
+	}
+	for k, x := range a.lease {
+		y := b.lease[k]
+		ok = verif_And(ok, x.State == y.State, x.Price.Amount.Equal(y.Price.Amount), x.CreatedAt == y.CreatedAt)
+	}
+	for k, x := range a.acct {
+		y := b.acct[k]
+		ok = verif_And(ok, x.State == y.State, x.Balance.Amount.Equal(y.Balance.Amount), x.Transferred.Amount.Equal(y.Transferred.Amount), x.SettledAt == y.SettledAt, x.Owner == y.Owner)
+	}
+	for k, x := range a.pay {
+		y := b.pay[k]
+		ok = verif_And(ok, x.State == y.State, x.Balance.Amount.Equal(y.Balance.Amount), x.Withdrawn.Amount.Equal(y.Withdrawn.Amount), x.Rate.Amount.Equal(y.Rate.Amount))
+	}
+	for k, x := range a.wallet {
+		ok = verif_And(ok, x.Equal(b.wallet[k]))
+	}
+	return ok
+}
+
+func Harness_C07_CreateDeployment()  { stepDet(hCreateDeployment, 1, 2) }
+func Harness_C07_DepositDeployment() { stepDet(hDepositDeployment, 1, 2) }
+func Harness_C07_UpdateDeployment()  { stepDet(hUpdateDeployment, 1, 2) }
+func Harness_C07_CloseDeployment()   { stepDet(hCloseDeployment, 1, 2) }
+func Harness_C07_CloseGroup()        { stepDet(hCloseGroup, 1, 2) }
+func Harness_C07_PauseGroup()        { stepDet(hPauseGroup, 1, 2) }
+func Harness_C07_StartGroup()        { stepDet(hStartGroup, 1, 2) }
+func Harness_C07_CreateBid()         { stepDet(hCreateBid, 1, 2) }
+func Harness_C07_CloseBid()          { stepDet(hCloseBid, 1, 2) }
+func Harness_C07_CreateLease()       { stepDet(hCreateLease, 1, 2) }
+func Harness_C07_WithdrawLease()     { stepDet(hWithdrawLease, 1, 2) }
+func Harness_C07_CloseLease()        { stepDet(hCloseLease, 1, 2) }
